@@ -235,6 +235,9 @@ thread_local! {
 }
 
 pub fn install_quiet_panic_hook() {
+    if std::env::var("VERIF_LOUD").is_ok() {
+        return;
+    }
     std::panic::set_hook(Box::new(|info| {
         let loc = info
             .location()
@@ -421,7 +424,7 @@ fn run_one_shard(def: &PropDef, tier: Tier, shard: u64, nshards: u64, seed: u64)
                 last_progress = (k, Instant::now());
             }
             // no progress on one case for 60 s, or overall far past the cap
-            if (k != 0 && k != u64::MAX && last_progress.1.elapsed() > Duration::from_secs(60)) || t0.elapsed() > Duration::from_secs(cap + 120) {
+            if (k != 0 && k != u64::MAX && last_progress.1.elapsed() > Duration::from_secs(if def.id == "C18" { 15 } else { 60 })) || t0.elapsed() > Duration::from_secs(cap + 120) {
                 let _ = child.kill();
                 hung = true;
                 break;
@@ -452,8 +455,8 @@ fn run_one_shard(def: &PropDef, tier: Tier, shard: u64, nshards: u64, seed: u64)
         };
         crashes.push((idx, what));
         skip.push(idx);
-        if crashes.len() > 8 {
-            return Err(format!("worker {shard}: more than 8 crashing cases, giving up (last: {err_tail})"));
+        if crashes.len() > 40 {
+            return Err(format!("worker {shard}: more than 40 crashing cases, giving up (last: {err_tail})"));
         }
     }
 }
@@ -648,7 +651,11 @@ pub fn parent_main(def: &PropDef, tier: Tier) -> i32 {
     // crashes become violations with the described case
     for (idx, what) in crashes {
         let case = describe_case(def, tier, idx, nshards);
-        let fp = format!("crash:{what}");
+        // a case may name its own class so that crashes on different kinds of input stay apart
+        let fp = match case.get("class").and_then(|c| c.as_str()) {
+            Some(cl) => format!("crash:{what}:{cl}"),
+            None => format!("crash:{what}"),
+        };
         let c = classes.entry(fp).or_default();
         c.clause = "crash".into();
         c.count += 1;
@@ -673,7 +680,7 @@ pub fn parent_main(def: &PropDef, tier: Tier) -> i32 {
         // confirm by double replay in fresh processes
         let (_, case, detail) = &c.witnesses[0];
         let mut confirmed = true;
-        if c.clause != "crash" && std::env::var("VERIF_NO_CONFIRM").is_err() {
+        if c.clause != "crash" && n_viol < 12 && std::env::var("VERIF_NO_CONFIRM").is_err() {
             for _ in 0..2 {
                 match replay_in_child(def.id, case) {
                     Ok(fps) => {
